@@ -43,6 +43,7 @@ pub fn concretise_alt(s: &str) -> Option<String> {
             '#' => Some('\u{1f4a9}'),  // another 4-byte symbol
             '|' => Some('\u{2003}'),   // em space: white space, 3 bytes
             '\u{c}' => Some('\u{7f}'), // DEL: a control character, 1 byte
+            ';' => Some('#'),          // another ignorable punctuation character (with `!` after it: the start of a script's interpreter line)
             _ => None,
         };
         match alt {
@@ -144,6 +145,18 @@ pub fn check_total(rec: &J) -> Verdict {
         }
         Err(e) => (format!("err: {}", e), 0),
     }));
+    // the same text with the second member of each character class (crash-only, like the first)
+    if rec.get("text").is_none() {
+        if let Some(alt) = concretise_alt(rec["src"].as_str().unwrap()) {
+            let a = catch_unwind(AssertUnwindSafe(|| {
+                let _ = parse(&alt).map(|p| format!("{:?}", p)).map_err(|e| e.to_string());
+                let _ = match rrss::cli::parser::run(&alt) { Ok(o) => o.to_string(), Err(e) => e.to_string() };
+            }));
+            if let Err(p) = a {
+                return Verdict::viol(format!("parse panicked (with the second member of each character class: {:?}): {}", alt, panic_msg(p)), J::Null);
+            }
+        }
+    }
     // the same text through the command-line layer's parse entry (src/cli/parser.rs: the parse error is re-rendered there)
     let c = catch_unwind(AssertUnwindSafe(|| match rrss::cli::parser::run(&src) {
         Ok(o) => o.to_string().len(),
